@@ -441,7 +441,10 @@ _CONFLICTS = {('not', 'nullable'): ('nullable', 'allow-none'), ('not', 'optional
 WORDS = ['a', 'the', '#GtkWidget', '%NULL', 'foo_bar()', 'value', '@x', 'Returns', 'since', '(see', 'above)',
          'é', '中文', 'x:y', '<b>', '*', '**bold**', 'e.g.', '1.0', 'stable', 'Deprecated', '-', '|[', ']|',
          'text:', 'f(x)', '#Foo::bar', '#Foo:baz', 'int', '(skip)', 'a,', 'or', '&amp;', '"q"', "it's",
-         '<!--', '3', '.5', 'Since', 'type', 'free()', '\\n', '%d', 'αβγ', 'A.', '@', ':', '(', ')', '=']
+         '<!--', '3', '.5', 'Since', 'type', 'free()', '\\n', '%d', 'αβγ', 'A.', '@', ':', '(', ')', '=',
+         # characters that str.splitlines() treats as line ends but C and GTK-Doc do not (inside a word, so that
+         # stripping at line ends does not touch them)
+         'page\x0cbreak', 'v\x0bt', 'fs\x1cgs\x1drs\x1eus', 'nel\x85x', 'ls\u2028ps\u2029x']
 _ALPHA = list('abcdefghijklmnopqrstuvwxyzABCDEFGHIJKLMNOPQRSTUVWXYZ0123456789_-.,;:!?()[]{}<>@#%&*+=/\\|~^\'"` ') \
     + ['é', 'ß', 'Ж', '中', '€', '​', 'ñ', '\U0001F600']
 
